@@ -1,9 +1,99 @@
-"""probe"""
-import os
+"""CrossHair harnesses for C34 - permission checks follow the declared access rules.
+
+What runs: the REAL `Database.set_perms_for`, `perm`, `AccessRule.__init__`, `AccessRule.exclude`, `has_perm`,
+`can_view/can_edit/can_create/can_delete`, `get_user_groups`, `get_user_roles`, `get_object_labels`, the three getter
+decorators, `Database.to_json` and `Database._get_schema_dict`, on a real mapped model
+
+    class A(db.Entity):  id, x = Optional(int), h = Optional(int, hidden=True), b = Optional('B')
+    class A2(A):         y = Optional(int)
+    class B(db.Entity):  id, a_set = Set('A')
+
+bound to the real SQLiteProvider over the fake pool (`engine.env.mock_database('sqlite')`).  Every explored path
+re-declares the rule set through the public API (the rule sets of the three entities are emptied first), opens a
+db_session, creates the objects a=A[1], a2=A2[2], b=B[1] in it (a.b = b) and asks the real functions.
+
+Symbolic (CrossHair): for each of TWO declared rules the permission name(s), the entities named in set_perms_for, the
+group / role / label requirement, the excluded entity and the excluded attribute (either side of the relationship);
+what the user-groups / user-roles / object-labels getters return (also the form: None, a single name, a set), whether
+the user is None, a plain object or the object itself (role 'self').  All of these are small selectors, so CrossHair's
+"Confirmed over all paths" means: every combination inside the stated bound was executed through the real code.
+One harness cannot hold the whole product (measured: 20 paths/s; two fully free rules x user x target are > 10^6
+paths), so the product is cut into harness functions that keep some selectors fixed (listed per harness in
+checks/c34.py: BOUNDS); every harness asks ALL targets of its kind (entities A, A2, B / the seven attributes / the three
+objects) with all four can_* functions in one path, twice (second pass in reverse order: "repeated checks give the same
+answer"), and - because the rules live in Python sets ordered by object identity - under BOTH iteration orders of the
+two rules (the rules are re-declared until the order is reversed; fresh db_session for each order).
+
+Reference (stated here, not copied from pony; `rules` = the declarations as data):
+  * a rule COVERS entity E for permission p iff p is one of its permissions and E is one of the entities of its
+    set_perms_for block or a subclass of one; it MATCHES the user iff the user's groups (getter results + 'anybody')
+    contain all its groups; exclude(E) excludes E and its subclasses, exclude(attr) excludes that attribute.
+  * entity E:   granted iff some covering, matching rule does not exclude E.
+  * object o:   granted iff some rule covering type(o) matches, the user's roles on o contain the rule's roles, o's
+                labels contain the rule's labels, and type(o) is not excluded by that rule.
+  * attribute:  side(t) := some rule covering t's entity matches and excludes neither that entity nor t; a hidden
+                attribute is never granted; a non-relationship attribute is granted iff side(t);
+                a relationship attribute t with reverse r is granted iff side(t) AND side(r)
+                ("minus exclusions, including exclusions on the reverse side of relationships").
+  * can_view = view or edit; can_edit = edit; can_create = create; can_delete = delete.
+  * to_json(data) raises PermissionError iff an object it would have to emit is not viewable, otherwise every emitted
+    object is viewable; the schema lists exactly the viewable entities and, of those, the viewable attributes whose
+    reverse entity and reverse attribute are viewable too.
+
+Interpretation recorded.  The relationship rule is the only place where the property text leaves room; three modes are
+therefore provided for attribute targets:
+  exact  - the AND reading above (the reading under which reverse-side exclusions SUBTRACT, as the property says, and
+           the one pony's own consumer `_get_schema_dict` and the inner `if not reverse_rules: return False` imply);
+  deny   - reading-independent upper bound: whatever the reading, an attribute for which neither side(t) nor side(r)
+           holds must be denied (for a non-relationship attribute: not side(t) => denied);
+  grant  - reading-independent lower bound: side(t) and (no reverse or side(r)) => granted.
+`deny` and `grant` together are implied by `exact`, by the OR reading ("either side suffices") and by every reading in
+between.  Object targets have an `_rest` twin harness that leaves out targets whose entity is excluded by some rule
+(the region of the object-level finding) so that the remaining space is still decided.
+
+Deviations from DESIGN.md C34: the design's single harness over two fully symbolic rules is split (see above); the
+group/role/label subset semantics are decided in separate single-rule harnesses with two names each; to_json and the
+schema filter, which the design put outside, are inside (they run without SQL on freshly created objects).
+Scaffolding that is not under test (db_session enter/exit, creating the three objects) runs with CrossHair's tracer
+switched off; everything from `set_perms_for` to the `can_*` answer is traced.
+"""
+import json, os
 from engine.ch import ok
 
+THOROUGH = os.environ.get('C34_TIER') == 'thorough'
+
 db = A = A2 = B = core = None
-CTX = {}
+ENT = {}       # name -> entity class
+ATTR = {}      # 'A.b' -> Attribute
+CTX = {'any': None, 'user': None, 'roles': {}, 'labels': {}}
+NPATHS = 0
+
+# ---------------------------------------------------------------------------------- facts of the model (reference side)
+SUB = {'A': ('A', 'A2'), 'A2': ('A2',), 'B': ('B',)}
+ATTR_ENT = {'A.id': 'A', 'A.x': 'A', 'A.h': 'A', 'A.b': 'A', 'A2.y': 'A2', 'B.id': 'B', 'B.a_set': 'B'}
+REVERSE = {'A.b': 'B.a_set', 'B.a_set': 'A.b'}
+HIDDEN = ('A.h',)
+ENT_NAMES = ('A', 'A2', 'B')
+ATTR_NAMES = ('A.id', 'A.x', 'A.h', 'A.b', 'A2.y', 'B.id', 'B.a_set')
+OBJ_NAMES = ('a', 'a2', 'b')
+OBJ_ENT = {'a': 'A', 'a2': 'A2', 'b': 'B'}
+QUERIES = ('view', 'edit', 'create', 'delete')      # can_view, can_edit, can_create, can_delete
+
+# selector tables (index = harness argument)
+PERM_T = ('view', 'edit', 'create', 'delete', 'view edit', 'edit,delete')
+ESET_T = (('A',), ('B',), ('A', 'B'), ('A2',), ('A2', 'B'))
+XE_T = (None, 'A', 'B', 'A2')
+XA_T = (None, 'A.b', 'B.a_set', 'A.x', 'A2.y')
+PERM_SPLIT = {'view': ('view',), 'edit': ('edit',), 'create': ('create',), 'delete': ('delete',), 'view edit': ('view', 'edit'),
+              'edit,delete': ('edit', 'delete')}
+NAMES2_T = ((), ('n1',), ('n2',), ('n1', 'n2'))     # subsets of two names (groups / roles / labels harnesses)
+
+# tier-dependent bounds used in the `pre:` lines
+N_XE = 4
+N_XA_ATTR = 5 if THOROUGH else 3
+N_P_ATTR = 2 if THOROUGH else 1
+N_E_ENT = 5 if THOROUGH else 3
+N_P_ENT = 6 if THOROUGH else 2
 
 
 class User(object):
@@ -22,6 +112,7 @@ def setup():
     class A(db.Entity):
         id = PrimaryKey(int)
         x = Optional(int)
+        h = Optional(int, hidden=True)
         b = Optional('B')
 
     class A2(A):
@@ -33,43 +124,354 @@ def setup():
     g = globals()
     g['A'], g['A2'], g['B'] = A, A2, B
     db.generate_mapping(check_tables=False)
+    ENT.update(A=A, A2=A2, B=B)
+    ATTR.update({'A.id': A.id, 'A.x': A.x, 'A.h': A.h, 'A.b': A.b, 'A2.y': A2.y, 'B.id': B.id, 'B.a_set': B.a_set})
+    core.time = lambda: 0.0
+    del core.usergroup_functions[:], core.userrole_functions[:], core.objlabel_functions[:]
 
-    @core.user_groups_getter()
-    def groups_of(user): return CTX['groups']
+    @core.user_groups_getter()                 # applies to every user
+    def groups_any(user): return CTX['any']
+
+    @core.user_groups_getter(User)             # applies to User instances only
+    def groups_user(user): return CTX['user']
 
     @core.user_roles_getter()
-    def roles_of(user, obj): return CTX['roles']
+    def roles_of(user, obj): return CTX['roles'].get(_objname(obj))
 
     @core.obj_labels_getter()
-    def labels_of(obj): return CTX['labels']
+    def labels_of(obj): return CTX['labels'].get(_objname(obj))
 
 
-def probe(p1: int, e1: int, g1: int, r1: bool, l1: bool, x1: int, ug1: bool, ug2: bool, ur: bool, ol: bool) -> bool:
+def _objname(obj):
+    return {'A': 'a', 'A2': 'a2', 'B': 'b'}[obj.__class__.__name__]
+
+
+def pick(table, k):
+    """realise a small symbolic selector by comparisons (one path per value)"""
+    for i in range(len(table) - 1):
+        if k == i: return table[i]
+    return table[len(table) - 1]
+
+
+def form(names):
+    """what a getter returns for a set of names: None / a single name / a set (the three documented forms)"""
+    names = tuple(names)
+    if not names: return None
+    if len(names) == 1: return names[0]
+    return set(names)
+
+
+def rule(perms='view', ents=('A', 'B'), groups=(), roles=(), labels=(), xe=None, xa=None):
+    return {'perms': PERM_SPLIT[perms], 'perm_text': perms, 'ents': tuple(ents), 'groups': tuple(groups),
+            'roles': tuple(roles), 'labels': tuple(labels), 'xe': xe, 'xa': xa}
+
+
+# ------------------------------------------------------------------------------------------------------- reference
+def closure(names):
+    out = set()
+    for n in names: out.update(SUB[n])
+    return out
+
+
+def covers(r, p, e): return p in r['perms'] and e in closure(r['ents'])
+def matches(r, ug): return set(r['groups']) <= ug
+def excludes_entity(r, e): return r['xe'] is not None and e in SUB[r['xe']]
+
+
+def ref_entity(rules, ug, p, e):
+    return any(covers(r, p, e) and matches(r, ug) and not excludes_entity(r, e) for r in rules)
+
+
+def ref_object(rules, ug, roles, labels, p, o):
+    e = OBJ_ENT[o]
+    return any(covers(r, p, e) and matches(r, ug) and set(r['roles']) <= roles[o] and set(r['labels']) <= labels[o]
+               and not excludes_entity(r, e) for r in rules)
+
+
+def side(rules, ug, p, t):
+    e = ATTR_ENT[t]
+    return any(covers(r, p, e) and matches(r, ug) and not excludes_entity(r, e) and r['xa'] != t for r in rules)
+
+
+def ref_attr(rules, ug, p, t):
+    """(lower bound, exact = AND reading, upper bound)"""
+    if t in HIDDEN: return (False, False, False)
+    f = side(rules, ug, p, t)
+    r = REVERSE.get(t)
+    if r is None: return (f, f, f)
+    rv = side(rules, ug, p, r)
+    return (f and rv, f and rv, f or rv)
+
+
+def q_perms(q): return ('view', 'edit') if q == 'view' else (q,)
+
+
+def user_groups_of(userkind, g_any, g_user):
+    ug = {'anybody'}
+    if userkind != 'none':
+        ug |= set(g_any)
+        if userkind == 'plain': ug |= set(g_user)
+    return ug
+
+
+def roles_of_user(userkind, roles):
+    out = {}
+    for o in OBJ_NAMES:
+        if userkind == 'none': out[o] = set()
+        else:
+            out[o] = set(roles.get(o, ()))
+            if userkind == o: out[o].add('self')
+    return out
+
+
+# ------------------------------------------------------------------------------------------------ driving real pony
+def declare(rules):
+    """the declarations, through the public API; returns the AccessRule objects"""
+    objs = []
+    for r in rules:
+        with db.set_perms_for(*[ENT[n] for n in r['ents']]):
+            kw = {}
+            if r['groups']: kw['group'] = ' '.join(r['groups'])
+            if r['roles']: kw['roles'] = list(r['roles'])
+            if r['labels']: kw['label'] = ','.join(r['labels'])
+            ar = core.perm(r['perm_text'], **kw)
+            ex = []
+            if r['xe'] is not None: ex.append(ENT[r['xe']])
+            if r['xa'] is not None: ex.append(ATTR[r['xa']])
+            if ex: ar.exclude(*ex)
+            objs.append(ar)
+    return objs
+
+
+def reset_rules():
+    for e in (A, A2, B): e._access_rules_.clear()
+
+
+def order_signature(objs):
+    sig = []
+    for e in (A, A2, B):
+        for p in sorted(e._access_rules_):
+            s = e._access_rules_[p]
+            if len(s) > 1: sig.append(tuple(objs.index(x) for x in s))
+    return tuple(sig)
+
+
+_DEPTH = [0]          # > 0: inside a tracer-off section of a CrossHair run
+
+
+class _Off(object):
+    """CrossHair tracer off (bookkeeping on concrete data only); no-op outside CrossHair"""
+    def __enter__(self):
+        self.cm = None
+        try:
+            from crosshair.tracers import NoTracing, is_tracing
+            if is_tracing():
+                self.cm = NoTracing(); self.cm.__enter__(); _DEPTH[0] += 1
+        except ImportError:
+            pass
+        return self
+    def __exit__(self, *a):
+        if self.cm is not None:
+            _DEPTH[0] -= 1
+            return self.cm.__exit__(*a)
+        return False
+
+
+class _On(object):
+    """tracer back on for the real pony calls inside a tracer-off section"""
+    def __enter__(self):
+        self.cm = None
+        if _DEPTH[0] > 0:
+            from crosshair.tracers import ResumedTracing
+            self.cm = ResumedTracing(); self.cm.__enter__()
+            self.saved = _DEPTH[0]; _DEPTH[0] = 0
+        return self
+    def __exit__(self, *a):
+        if self.cm is not None:
+            _DEPTH[0] = self.saved
+            return self.cm.__exit__(*a)
+        return False
+
+
+def _untraced(): return _Off()
+def _traced(): return _On()
+
+
+def concrete(x):
+    """the decoded declarations must be plain Python data before they enter tracer-off code"""
+    t = type(x)
+    if t in (tuple, list): return all(concrete(y) for y in x)
+    if t is dict: return all(type(k) is str and concrete(v) for k, v in x.items())
+    if x is None or t in (str, bool, int): return True
+    BAD.append(repr(t))
+    return False
+BAD = []
+
+
+class Session(object):
+    """db_session with the three objects (scaffolding, called with the tracer off)"""
+    def __enter__(self):
+        core.local.user_groups_cache.clear(); core.local.user_roles_cache.clear()
+        self.cm = core.db_session()
+        self.cm.__enter__()
+        b = B(id=1)
+        self.objs = {'a': A(id=1, x=5, b=b), 'a2': A2(id=2), 'b': b}
+        return self.objs
+    def __exit__(self, *exc):
+        try: core.rollback()
+        finally: self.cm.__exit__(None, None, None)
+        return False
+
+
+CAN = None
+def _can():
+    global CAN
+    if CAN is None: CAN = {'view': core.can_view, 'edit': core.can_edit, 'create': core.can_create, 'delete': core.can_delete}
+    return CAN
+
+
+def ask(rules, userkind, g_any, g_user, roles, labels, kind, queries=QUERIES):
+    """-> list (one per rule iteration order) of {(query, target): [first answer, second answer]} from the real code.
+    Called with the tracer off; the declarations and the first pass of questions of the first order run traced."""
+    CTX['any'], CTX['user'] = form(g_any), form(g_user)
+    CTX['roles'] = {o: form(v) for o, v in roles.items()}
+    CTX['labels'] = {o: form(v) for o, v in labels.items()}
+    names = {'entity': ENT_NAMES, 'attr': ATTR_NAMES, 'object': OBJ_NAMES}[kind]
+    can = _can()
+    keep, results, first_sig = [], [], None
+    for attempt in range(200):
+        reset_rules()
+        if attempt == 0:
+            with _traced(): objs = declare(rules)
+        else: objs = declare(rules)
+        keep.append(objs)                      # keep earlier rule objects alive: new ones get new identities
+        sig = order_signature(objs)
+        if first_sig is None: first_sig = sig
+        elif not all(s == tuple(reversed(f)) for s, f in zip(sig, first_sig)): continue
+        with Session() as o:
+            user = None if userkind == 'none' else User() if userkind == 'plain' else o[userkind]
+            target = (lambda n: ENT[n]) if kind == 'entity' else (lambda n: ATTR[n]) if kind == 'attr' else (lambda n: o[n])
+            got = {}
+            pairs = [(q, n, target(n)) for q in queries for n in names]
+            if not results:
+                with _traced():
+                    for q, n, t in pairs: got[q, n] = [can[q](user, t)]
+            else:
+                for q, n, t in pairs: got[q, n] = [can[q](user, t)]
+            for q, n, t in reversed(pairs): got[q, n].append(can[q](user, t))
+            results.append(got)
+        if not first_sig or len(results) == 2: break
+    else:
+        raise RuntimeError('could not obtain the reversed rule order')
+    reset_rules()
+    return results
+
+
+def expected(rules, userkind, g_any, g_user, roles, labels, kind, queries=QUERIES):
+    """{(query, target): (lower, exact, upper)}"""
+    ug = user_groups_of(userkind, g_any, g_user)
+    ur = roles_of_user(userkind, roles)
+    ol = {o: set(labels.get(o, ())) for o in OBJ_NAMES}
+    out = {}
+    for q in queries:
+        if kind == 'entity':
+            for n in ENT_NAMES:
+                v = any(ref_entity(rules, ug, p, n) for p in q_perms(q)); out[q, n] = (v, v, v)
+        elif kind == 'object':
+            for n in OBJ_NAMES:
+                v = any(ref_object(rules, ug, ur, ol, p, n) for p in q_perms(q)); out[q, n] = (v, v, v)
+        else:
+            for n in ATTR_NAMES:
+                trip = [ref_attr(rules, ug, p, n) for p in q_perms(q)]
+                out[q, n] = tuple(any(t[i] for t in trip) for i in range(3))
+    return out
+
+
+def mismatches(rules, userkind, g_any, g_user, roles, labels, kind, mode='exact', skip=None, queries=QUERIES):
+    """list of (query, target, order index, answers, (lower, exact, upper)) where the real code leaves the reference"""
+    exp = expected(rules, userkind, g_any, g_user, roles, labels, kind, queries)
+    bad = []
+    for i, got in enumerate(ask(rules, userkind, g_any, g_user, roles, labels, kind, queries)):
+        for key, answers in got.items():
+            if skip is not None and skip(key[1]): continue
+            lo, ex, up = exp[key]
+            for a in answers:
+                if a is not True and a is not False: good = False
+                elif mode == 'exact': good = a == ex
+                elif mode == 'deny': good = up or not a
+                else: good = a or not lo
+                if not good:
+                    bad.append((key[0], key[1], i, tuple(answers), exp[key])); break
+    return bad
+
+
+def check(rules, kind, mode='exact', userkind='plain', g_any=(), g_user=(), roles=None, labels=None, skip=None, queries=QUERIES):
+    global NPATHS
+    NPATHS += 1
+    args = (rules, userkind, tuple(g_any), tuple(g_user), roles or {}, labels or {}, kind)
+    with _untraced():
+        if not concrete(args): raise RuntimeError('symbolic value left in decoded declarations: %s' % BAD)
+        return not mismatches(*args, mode=mode, skip=skip, queries=queries)
+
+
+def excluded_somewhere(rules):
+    """entities named (with subclasses) in some rule's exclude(): the region of the object-level finding"""
+    out = set()
+    for r in rules:
+        if r['xe'] is not None: out.update(SUB[r['xe']])
+    return out
+
+
+# =================================================================================================== harnesses
+# Convention for the "match" selectors m1/m2: the user is in group g1 only; m = True -> the rule asks for no group,
+# m = False -> the rule asks for group g2 (which the user lacks).  Group-set semantics proper are in `groups_*`.
+def _grp(m): return () if m else ('g2',)
+
+
+# ---- entity targets: two rules; symbolic permission, entity list, match, excluded entity of both rules
+def _entity(p1, e1, m1, x1, p2, e2, m2, x2):
+    rules = [rule(pick(PERM_T[:N_P_ENT], p1), pick(ESET_T[:N_E_ENT], e1), _grp(m1), xe=pick(XE_T, x1)),
+             rule(pick(PERM_T[:N_P_ENT], p2), pick(ESET_T[:N_E_ENT], e2), _grp(m2), xe=pick(XE_T, x2), roles=('r',), labels=('l',), xa='A.x')]
+    return check(rules, 'entity', g_user=('g1',))
+
+
+def entity_p1_view(e1: int, m1: bool, x1: int, p2: int, e2: int, m2: bool, x2: int) -> bool:
     """
-    pre: 0 <= p1 < 2 and 0 <= e1 < 3 and 0 <= g1 < 3 and 0 <= x1 < 3
+    pre: 0 <= e1 < N_E_ENT and 0 <= x1 < N_XE and 0 <= p2 < N_P_ENT and 0 <= e2 < N_E_ENT and 0 <= x2 < N_XE
     post: _
     """
-    for E in (A, A2, B): E._access_rules_.clear()
-    core.local.user_groups_cache.clear(); core.local.user_roles_cache.clear()
-    with db.set_perms_for(*[(A,), (B,), (A, B)][e1]):
-        kw = {}
-        if g1: kw['group'] = ['g1', 'g2'][g1 - 1]
-        if r1: kw['role'] = 'r'
-        if l1: kw['label'] = 'l'
-        rule = core.perm(['view', 'edit'][p1], **kw)
-        if x1: rule.exclude([A, B][x1 - 1])
-    ug = set()
-    if ug1: ug.add('g1')
-    if ug2: ug.add('g2')
-    CTX['groups'] = ug
-    CTX['roles'] = {'r'} if ur else None
-    CTX['labels'] = 'l' if ol else None
-    u = User()
-    with core.db_session:
-        try:
-            a = A(id=1)
-            got = core.can_view(u, a)
-        finally:
-            core.rollback()
-    exp = (e1 != 1) and (g1 == 0 or [ug1, ug2][g1 - 1]) and (not r1 or ur) and (not l1 or ol)
-    return ok(got == exp)
+    return ok(_entity(0, e1, m1, x1, p2, e2, m2, x2))
+
+
+def entity_p1_edit(e1: int, m1: bool, x1: int, p2: int, e2: int, m2: bool, x2: int) -> bool:
+    """
+    pre: 0 <= e1 < N_E_ENT and 0 <= x1 < N_XE and 0 <= p2 < N_P_ENT and 0 <= e2 < N_E_ENT and 0 <= x2 < N_XE
+    post: _
+    """
+    return ok(_entity(1, e1, m1, x1, p2, e2, m2, x2))
+
+
+# ---- attribute targets: two rules; symbolic entity list, match, excluded entity, excluded attribute of both rules
+def _attr(mode, e1, m1, x1, a1, e2, m2, x2, a2, p2=0):
+    rules = [rule('view', pick(ESET_T[:3], e1), _grp(m1), xe=pick(XE_T[:3], x1), xa=pick(XA_T[:N_XA_ATTR], a1)),
+             rule(pick(PERM_T[:N_P_ATTR], p2), pick(ESET_T[:3], e2), _grp(m2), xe=pick(XE_T[:3], x2), xa=pick(XA_T[:N_XA_ATTR], a2))]
+    return check(rules, 'attr', mode, g_user=('g1',), queries=('view',) if not THOROUGH else QUERIES)
+
+
+def _mk_attr(mode, e1):
+    def h(m1: bool, x1: int, a1: int, e2: int, m2: bool, x2: int, a2: int, p2: int) -> bool:
+        """
+        pre: 0 <= x1 < 3 and 0 <= a1 < N_XA_ATTR and 0 <= e2 < 3 and 0 <= x2 < 3 and 0 <= a2 < N_XA_ATTR and 0 <= p2 < N_P_ATTR
+        post: _
+        """
+        return ok(_attr(mode, e1, m1, x1, a1, e2, m2, x2, a2, p2))
+    h.__name__ = h.__qualname__ = 'attr_%s_e1_%s' % (mode, ''.join(ESET_T[e1]))
+    return h
+
+
+ATTR_HARNESSES = []
+for _mode in ('exact', 'deny', 'grant'):
+    for _e1 in range(3):
+        _h = _mk_attr(_mode, _e1)
+        globals()[_h.__name__] = _h
+        ATTR_HARNESSES.append(_h.__name__)
